@@ -127,12 +127,12 @@ Proof.
 Qed.
 
 (* byaxis with any set of selected positions *)
-Lemma byaxis_sel_spec (strict : bool) (p : list Raxis) (sel : list Z) : Forall valid p ->
-  byaxis_sel strict p sel = Ok (pick sel 0 p).
+Lemma byaxis_sel_spec (p : list Raxis) (sel : list Z) : Forall valid p ->
+  byaxis_sel p sel = Ok (pick sel 0 p).
 Proof.
   intros Hv. unfold byaxis_sel. rewrite (slc_is_mk_slc sel p 0). cbn [Z.of_nat].
   destruct (byaxis_items sel 0 p Hv) as (H1 & H2 & H3 & H4).
-  destruct (getitem_after_norm strict p (ETuple (mk_slc sel 0 p)) _ (norm_index_full strict _ _ H1 H3) Hv H2 H3) as [Hg _].
+  destruct (getitem_after_norm p (ETuple (mk_slc sel 0 p)) _ (norm_index_full _ _ H1 H3) Hv H2 H3) as [Hg _].
   rewrite Hg, H4. cbn [bind]. unfold squeeze, axsel_range.
   assert (Hzl : zlen (cut sel 0 p) = Z.of_nat (length p)) by (unfold zlen; rewrite cut_length; reflexivity).
   rewrite fancy_idx_id.
@@ -156,9 +156,9 @@ Proof.
   - rewrite IH by (unfold zlen in *; cbn [length] in Hi; lia).
     replace (Z.to_nat (i - k)) with (S (Z.to_nat (i - (k + 1)))) by lia. reflexivity.
 Qed.
-Lemma byaxis_int_spec (strict : bool) (p : list Raxis) (i : Z) : Forall valid p ->
+Lemma byaxis_int_spec (p : list Raxis) (i : Z) : Forall valid p ->
   (- zlen p <= i < zlen p)%Z ->
-  byaxis1 strict p (AxInt i) = Ok [nth (Z.to_nat (if (i <? 0)%Z then i + zlen p else i)) p (mkAxis 0 0 [])].
+  byaxis1 p (AxInt i) = Ok [nth (Z.to_nat (if (i <? 0)%Z then i + zlen p else i)) p (mkAxis 0 0 [])].
 Proof.
   intros Hv Hi. unfold byaxis1, axsel_range, fancy_idx. cbn [mapM].
   replace ((- zlen p <=? i)%Z && (i <? zlen p)%Z) with true
@@ -167,8 +167,8 @@ Proof.
   rewrite pick_single by (destruct (i <? 0)%Z eqn:E; [apply Z.ltb_lt in E|apply Z.ltb_ge in E]; lia).
   rewrite Z.sub_0_r. reflexivity.
 Qed.
-Lemma byaxis_int_out_of_range (strict : bool) (p : list Raxis) (i : Z) :
-  (i < - zlen p \/ zlen p <= i)%Z -> byaxis1 strict p (AxInt i) = IndexErr.
+Lemma byaxis_int_out_of_range (p : list Raxis) (i : Z) :
+  (i < - zlen p \/ zlen p <= i)%Z -> byaxis1 p (AxInt i) = IndexErr.
 Proof.
   intros Hi. unfold byaxis1, axsel_range, fancy_idx. cbn [mapM].
   replace ((- zlen p <=? i)%Z && (i <? zlen p)%Z) with false; [reflexivity|].
@@ -178,12 +178,12 @@ Qed.
 (* byaxis[[i1, ..., ik]]: the selected axes stacked in the given order (repetitions allowed) *)
 Definition axis_at (p : list Raxis) (i : Z) : Raxis :=
   nth (Z.to_nat (if (i <? 0)%Z then i + zlen p else i)) p (mkAxis 0 0 []).
-Lemma byaxis_seq_spec (strict : bool) (p : list Raxis) (l : list Z) : Forall valid p ->
+Lemma byaxis_seq_spec (p : list Raxis) (l : list Z) : Forall valid p ->
   (forall i, In i l -> (- zlen p <= i < zlen p)%Z) ->
-  byaxis_seq strict p l = Ok (map (axis_at p) l).
+  byaxis_seq p l = Ok (map (axis_at p) l).
 Proof.
   intros Hv Hin. unfold byaxis_seq.
-  assert (E : mapM (fun i => byaxis1 strict p (AxInt i)) l = Ok (map (fun i => [axis_at p i]) l)).
+  assert (E : mapM (fun i => byaxis1 p (AxInt i)) l = Ok (map (fun i => [axis_at p i]) l)).
   { induction l as [|i l IH]; [reflexivity|]. cbn [mapM map].
     rewrite byaxis_int_spec by (auto; apply Hin; left; reflexivity). cbn [bind].
     rewrite IH by (intros; apply Hin; right; assumption). reflexivity. }
